@@ -265,7 +265,11 @@ impl Searcher {
 
                     best_mv = line.first().copied();
 
-                    assert!(!line.is_empty());
+                    // No line means that there are no legal moves in this position (checkmate
+                    // or stalemate), so there is nothing to report and nothing more to search
+                    if line.is_empty() {
+                        break;
+                    }
 
                     // Make sure that the line we're returning is actually valid
                     debug_assert!({
